@@ -1,4 +1,4 @@
-import WfModel.PolicyTree
+import WfModel.RpTree
 import WfProofs.PolicyLemmas
 /-! Helper lemmas for the nested part of C07 (trees of combinators, bounds of wait trees, `sum()`). -/
 set_option linter.unusedVariables false
@@ -12,15 +12,15 @@ theorem WTree.evalList_eq_map (ls : List WTree) : WTree.evalList ls = ls.map WTr
   | nil => simp [WTree.evalList]
   | cons t ts ih => simp [WTree.evalList, ih]
 
-theorem STree.evalList_eq_map (ls : List STree) : STree.evalList ls = ls.map STree.eval := by
+theorem RSTree.evalList_eq_map (ls : List RSTree) : RSTree.evalList ls = ls.map RSTree.eval := by
   induction ls with
-  | nil => simp [STree.evalList]
-  | cons t ts ih => simp [STree.evalList, ih]
+  | nil => simp [RSTree.evalList]
+  | cons t ts ih => simp [RSTree.evalList, ih]
 
-theorem CTree.evalList_eq_map (ls : List CTree) : CTree.evalList ls = ls.map CTree.eval := by
+theorem RCTree.evalList_eq_map (ls : List RCTree) : RCTree.evalList ls = ls.map RCTree.eval := by
   induction ls with
-  | nil => simp [CTree.evalList]
-  | cons t ts ih => simp [CTree.evalList, ih]
+  | nil => simp [RCTree.evalList]
+  | cons t ts ih => simp [RCTree.evalList, ih]
 
 theorem WTree.loList_eq_map (ls : List WTree) : WTree.loList ls = ls.map WTree.lo := by
   induction ls with
@@ -42,78 +42,78 @@ theorem WTree.jitterFreeList_iff (ls : List WTree) : WTree.jitterFreeList ls = t
   | nil => simp [WTree.jitterFreeList]
   | cons t ts ih => simp [WTree.jitterFreeList, ih]
 
-theorem CTree.someHolds_iff (ls : List CTree) (e : Nat) : CTree.SomeHolds ls e ↔ ∃ t ∈ ls, t.Holds e := by
+theorem RCTree.someHolds_iff (ls : List RCTree) (e : Nat) : RCTree.SomeHolds ls e ↔ ∃ t ∈ ls, t.Holds e := by
   induction ls with
-  | nil => simp [CTree.SomeHolds]
-  | cons t ts ih => simp [CTree.SomeHolds, ih]
+  | nil => simp [RCTree.SomeHolds]
+  | cons t ts ih => simp [RCTree.SomeHolds, ih]
 
-theorem CTree.everyHolds_iff (ls : List CTree) (e : Nat) : CTree.EveryHolds ls e ↔ ∀ t ∈ ls, t.Holds e := by
+theorem RCTree.everyHolds_iff (ls : List RCTree) (e : Nat) : RCTree.EveryHolds ls e ↔ ∀ t ∈ ls, t.Holds e := by
   induction ls with
-  | nil => simp [CTree.EveryHolds]
-  | cons t ts ih => simp [CTree.EveryHolds, ih]
+  | nil => simp [RCTree.EveryHolds]
+  | cons t ts ih => simp [RCTree.EveryHolds, ih]
 
-theorem STree.someHolds_iff (ls : List STree) (a : Nat) (el up : Rat) :
-    STree.SomeHolds ls a el up ↔ ∃ t ∈ ls, t.Holds a el up := by
+theorem RSTree.someHolds_iff (ls : List RSTree) (a : Nat) (el up : Rat) :
+    RSTree.SomeHolds ls a el up ↔ ∃ t ∈ ls, t.Holds a el up := by
   induction ls with
-  | nil => simp [STree.SomeHolds]
-  | cons t ts ih => simp [STree.SomeHolds, ih]
+  | nil => simp [RSTree.SomeHolds]
+  | cons t ts ih => simp [RSTree.SomeHolds, ih]
 
-theorem STree.everyHolds_iff (ls : List STree) (a : Nat) (el up : Rat) :
-    STree.EveryHolds ls a el up ↔ ∀ t ∈ ls, t.Holds a el up := by
+theorem RSTree.everyHolds_iff (ls : List RSTree) (a : Nat) (el up : Rat) :
+    RSTree.EveryHolds ls a el up ↔ ∀ t ∈ ls, t.Holds a el up := by
   induction ls with
-  | nil => simp [STree.EveryHolds]
-  | cons t ts ih => simp [STree.EveryHolds, ih]
+  | nil => simp [RSTree.EveryHolds]
+  | cons t ts ih => simp [RSTree.EveryHolds, ih]
 
 /-! ### trees of conditions are Boolean formulas -/
 
 mutual
-theorem CTree.eval_iff_holds : ∀ (t : CTree) (e : Nat), t.eval e = true ↔ t.Holds e
-  | .leaf l, e => by simp [CTree.eval, CTree.Holds]
+theorem RCTree.eval_iff_holds : ∀ (t : RCTree) (e : Nat), t.eval e = true ↔ t.Holds e
+  | .leaf l, e => by simp [RCTree.eval, RCTree.Holds]
   | .any ls, e => by
-    have ih := CTree.evalList_iff_holds ls
-    rw [CTree.eval, CTree.Holds, CTree.someHolds_iff, CTree.evalList_eq_map]
+    have ih := RCTree.evalList_iff_holds ls
+    rw [RCTree.eval, RCTree.Holds, RCTree.someHolds_iff, RCTree.evalList_eq_map]
     simp only [retryAny, List.any_map, List.any_eq_true, Function.comp]
     constructor
     · rintro ⟨t, ht, h⟩; exact ⟨t, ht, (ih t ht e).1 h⟩
     · rintro ⟨t, ht, h⟩; exact ⟨t, ht, (ih t ht e).2 h⟩
   | .all ls, e => by
-    have ih := CTree.evalList_iff_holds ls
-    rw [CTree.eval, CTree.Holds, CTree.everyHolds_iff, CTree.evalList_eq_map]
+    have ih := RCTree.evalList_iff_holds ls
+    rw [RCTree.eval, RCTree.Holds, RCTree.everyHolds_iff, RCTree.evalList_eq_map]
     simp only [retryAll, List.all_map, List.all_eq_true, Function.comp]
     constructor
     · intro h t ht; exact (ih t ht e).1 (h t ht)
     · intro h t ht; exact (ih t ht e).2 (h t ht)
-theorem CTree.evalList_iff_holds : ∀ (ls : List CTree), ∀ t ∈ ls, ∀ e, t.eval e = true ↔ t.Holds e
+theorem RCTree.evalList_iff_holds : ∀ (ls : List RCTree), ∀ t ∈ ls, ∀ e, t.eval e = true ↔ t.Holds e
   | [], _, h, _ => by simp at h
   | x :: xs, t, h, e => by
     cases List.mem_cons.1 h with
-    | inl hx => rw [hx] at *; exact CTree.eval_iff_holds x e
-    | inr h' => exact CTree.evalList_iff_holds xs t h' e
+    | inl hx => rw [hx] at *; exact RCTree.eval_iff_holds x e
+    | inr h' => exact RCTree.evalList_iff_holds xs t h' e
 end
 
 mutual
-theorem STree.eval_iff_holds : ∀ (t : STree) (a : Nat) (el up : Rat), t.eval a el up = true ↔ t.Holds a el up
-  | .leaf l, a, el, up => by simp [STree.eval, STree.Holds]
+theorem RSTree.eval_iff_holds : ∀ (t : RSTree) (a : Nat) (el up : Rat), t.eval a el up = true ↔ t.Holds a el up
+  | .leaf l, a, el, up => by simp [RSTree.eval, RSTree.Holds]
   | .any ls, a, el, up => by
-    have ih := STree.evalList_iff_holds ls
-    rw [STree.eval, STree.Holds, STree.someHolds_iff, STree.evalList_eq_map]
+    have ih := RSTree.evalList_iff_holds ls
+    rw [RSTree.eval, RSTree.Holds, RSTree.someHolds_iff, RSTree.evalList_eq_map]
     simp only [stopAny, List.any_map, List.any_eq_true, Function.comp]
     constructor
     · rintro ⟨t, ht, h⟩; exact ⟨t, ht, (ih t ht a el up).1 h⟩
     · rintro ⟨t, ht, h⟩; exact ⟨t, ht, (ih t ht a el up).2 h⟩
   | .all ls, a, el, up => by
-    have ih := STree.evalList_iff_holds ls
-    rw [STree.eval, STree.Holds, STree.everyHolds_iff, STree.evalList_eq_map]
+    have ih := RSTree.evalList_iff_holds ls
+    rw [RSTree.eval, RSTree.Holds, RSTree.everyHolds_iff, RSTree.evalList_eq_map]
     simp only [stopAll, List.all_map, List.all_eq_true, Function.comp]
     constructor
     · intro h t ht; exact (ih t ht a el up).1 (h t ht)
     · intro h t ht; exact (ih t ht a el up).2 (h t ht)
-theorem STree.evalList_iff_holds : ∀ (ls : List STree), ∀ t ∈ ls, ∀ a el up, t.eval a el up = true ↔ t.Holds a el up
+theorem RSTree.evalList_iff_holds : ∀ (ls : List RSTree), ∀ t ∈ ls, ∀ a el up, t.eval a el up = true ↔ t.Holds a el up
   | [], _, h, _, _, _ => by simp at h
   | x :: xs, t, h, a, el, up => by
     cases List.mem_cons.1 h with
-    | inl hx => rw [hx] at *; exact STree.eval_iff_holds x a el up
-    | inr h' => exact STree.evalList_iff_holds xs t h' a el up
+    | inl hx => rw [hx] at *; exact RSTree.eval_iff_holds x a el up
+    | inr h' => exact RSTree.evalList_iff_holds xs t h' a el up
 end
 
 /-! ### sums -/
